@@ -20,7 +20,7 @@ RULE = ('E1 exhaustive: every stack of <= d IMPLICIT/EXPLICIT taggings (quick d=
         'equals the model chain; (3) decoding with the type succeeds with the right value; (4) for EVERY single-'
         'position perturbation of the decoding type (class -> each other class, number +-1, number -> each other '
         'number of N, IMPLICIT<->EXPLICIT) whose tag sequence differs, decoding must raise PyAsn1Error; '
-        'perturbed types under which the independent reader accepts the bytes (a flipped mode over a string type is a valid constructed string) are skipped; (5) EXPLICIT UNIVERSAL tagging is refused. Non-trivial = stack depth >= 1; distinct = digest of '
+        'perturbed types under which the independent reader accepts the bytes (a flipped mode over a string type is a valid constructed string) are skipped; (5) EXPLICIT UNIVERSAL tagging is refused; (6) a value object of the type with its outermost tag taken off, or of the untagged base type, assigned to a SEQUENCE field / SEQUENCE OF member of the tagged type is refused or encoded with exactly the tags of the tagged type. Non-trivial = stack depth >= 1; distinct = digest of '
         '(type, perturbation).')
 ASSUMPTIONS = [
     'reference tag algebra: mc.model.x690.tag_stack / ident_octets (X.680 31.2, X.690 8.1.2)',
@@ -161,6 +161,8 @@ def check_case(idx, T, v, R, tier):
     else:
         for f in feats:
             R.features[f] += 1
+    # (6) value objects carrying only part of the tags
+    check_foreign_value(idx, T, v, R)
     # (4) reject near-miss types
     nums = U.TAG_NUMS_QUICK if tier != 'quick' or depth < 2 else U.TAG_NUMS_SMALL
     for lvl, alt, T2 in perturbations(T, nums):
@@ -194,6 +196,61 @@ def check_case(idx, T, v, R, tier):
                         'decode(%s, %s) returned %r' % (ref[:24].hex(), M.show_type(T2), r),
                         'PyAsn1Error (tags differ at level %d)' % lvl, decname + '.decoder',
                         feats | {'perturb:' + kind, 'level:%d' % lvl}, idx)
+
+
+def check_foreign_value(idx, T, v, R):
+    """(6) a value object whose tags are only PART of the field's tags (the field's type with its outermost tag
+    taken off, and the untagged base type) put into a field of type T: refused, or else the encoding still carries
+    exactly T's tags"""
+    from pyasn1.type import univ, namedtype
+    st, base = stack_of(T)
+    if not st or base[0] in ('CHOICE', 'ANY'):
+        return
+    tags = M.tag_stack(T)
+    spec = B.to_spec(T)
+    inner_types = []
+    if T[0] == 'TAG':
+        inner_types.append(T[4])
+    if base not in inner_types:
+        inner_types.append(base)
+    for IT in inner_types:
+        if M.tag_stack(IT) == tags:
+            continue
+        try:
+            foreign = B.build(IT, v, B.to_spec(IT))
+        except Exception:
+            continue
+        for kind in ('sequence field', 'sequence-of member'):
+            R.evaluations += 1
+            R.nontrivial((T, 'foreign', IT, kind))
+            feats = CM.type_features(T) | {'foreign_value', 'into:' + kind.split(' ')[0]}
+            rec = {'T': T, 'v': v, 'foreign_type': IT, 'into': kind}
+            if kind == 'sequence field':
+                box = univ.Sequence(componentType=namedtype.NamedTypes(namedtype.NamedType('f', spec)))
+                put = lambda: box.setComponentByName('f', foreign)
+                want_prefix = b'\x30'
+            else:
+                box = univ.SequenceOf(componentType=spec)
+                put = lambda: box.append(foreign)
+                want_prefix = b'\x30'
+            try:
+                put()
+            except (pyerr.PyAsn1Error, KeyError, IndexError):
+                R.features['foreign.refused'] += 1
+                continue
+            except Exception as e:
+                R.violation('foreign.leak:' + type(e).__name__, rec, exc_text(e), 'refused or stored with the field tags',
+                            pyasn1_site(e), feats, idx)
+                continue
+            try:
+                data = der_enc.encode(box)
+            except pyerr.PyAsn1Error:
+                R.features['foreign.refused_at_encoding'] += 1
+                continue
+            ref = M.der(('SEQ', (('f', T, 'R', None),)), {'f': v}) if kind == 'sequence field' else M.der(('SEQOF', T), [v])
+            if data != ref and 'real10' not in CM.value_features(T, v):
+                R.violation('foreign.wire', rec, 'a %s value was accepted as %s of type %s and encoded as %s' % (
+                    M.show_type(IT), kind, M.show_type(T), data[:24].hex()), ref[:24].hex(), 'type.tag', feats, idx)
 
 
 def check_universal_refused(R):
